@@ -353,8 +353,9 @@ class Tracer:
             rec["exc"] = f"{type(exc).__name__}: {exc}"[:300]
         self.recs.append(rec)
         self.cur = None
-        if len(self.recs) > MAX_RECS:
-            raise HangDetected(f"more than {MAX_RECS} loop actions")
+        cap = self.world.get("max_recs", MAX_RECS)
+        if len(self.recs) > cap:
+            raise HangDetected(f"more than {cap} loop actions")
 
 
 def _install(tr: Tracer):
